@@ -236,6 +236,7 @@ func runBatchSequential(ctx context.Context, node Node, items []Result, results 
 		if ctx.Err() != nil {
 			results[i] = NewErrorResult(fmt.Errorf("context cancelled"))
 			if errorHandling == "stop" {
+				markSkipped(results[i+1:])
 				break
 			}
 			continue
@@ -245,6 +246,7 @@ func runBatchSequential(ctx context.Context, node Node, items []Result, results 
 		if err != nil {
 			results[i] = NewErrorResult(err)
 			if errorHandling == "stop" {
+				markSkipped(results[i+1:])
 				break
 			}
 		} else {
@@ -254,6 +256,14 @@ func runBatchSequential(ctx context.Context, node Node, items []Result, results 
 				results[i] = NewResult(execResult)
 			}
 		}
+	}
+}
+
+// markSkipped records that the remaining items of a stopped batch were never
+// processed, so that their slots cannot be mistaken for successful results.
+func markSkipped(results []Result) {
+	for i := range results {
+		results[i] = NewErrorResult(fmt.Errorf("batch stopped due to error"))
 	}
 }
 
